@@ -147,5 +147,126 @@ theorem canonicalize_soundR (root : Node) (strict : Bool) (p : Spec.Path) (hc : 
       ((if p.top = true then [Op.top] else []) ++ Z.map compileStep) d el
     simp only [List.append_assoc] at this
     exact this
+/-! ### one compiled step under `denOrd` = the step's denotation, then the rest one element at a time -/
+
+theorem flatMapR_singleton (f : Pos → Ranked) (x : Pos) : flatMapR f [x] = f x := by
+  simp only [flatMapR]
+  cases f x <;> simp [Ranked.merge]
+
+/-- what a compiled step does under `denOrd`: the step's own error at the current depth, otherwise
+    the rest on every selected element, one deeper after a bracket step -/
+def stepThen (root : Node) (strict : Bool) (s : Step) (d : Nat) (el : Pos) (k : Nat → Pos → Ranked) : Ranked :=
+  match stepDen root strict s el with
+  | .error e => .err d e
+  | .ok next => flatMapR (k (if s.isSlice then d + 1 else d)) next
+
+theorem denOrd_slice (root : Node) (strict : Bool) (a b c : Option Int) (hc : (c == some 0) = false)
+    (r : List Op) (d : Nat) (el : Pos) :
+    denOrd root strict (.slice a b c :: r) d el =
+      flatMapR (denOrd root strict r (d + 1))
+        ((pySlice (nodeAt root el).kids.length a b c).map (fun i => el ++ [i])) := by
+  simp only [denOrd, hc, kidsAt_length]
+  rfl
+
+theorem denOrd_step (root : Node) (strict : Bool) (s : Step) (r : List Op) (d : Nat) (el : Pos) :
+    denOrd root strict (compileStep s :: r) d el
+      = stepThen root strict s d el (denOrd root strict r) := by
+  unfold stepThen
+  cases s with
+  | up => simp only [compileStep, denOrd, stepDen, flatMapR_singleton, Step.isSlice]; rfl
+  | here => simp only [compileStep, denOrd, stepDen, flatMapR_singleton, Step.isSlice]; rfl
+  | name nm =>
+    simp only [compileStep, denOrd, stepDen, indexAt_eq_childNamed, Step.isSlice]
+    cases childNamed (nodeAt root el) nm with
+    | some i => simp only [flatMapR_singleton]; rfl
+    | none => cases strict <;> simp [flatMapR]
+  | negidx k =>
+    have hA : compileStep (.negidx k) = .slice (negA k) (negB k) none := by
+      simp only [compileStep, negA, negB]
+      by_cases hk : k = 1
+      · subst hk; simp
+      · simp [hk]
+    rw [hA, denOrd_slice _ _ _ _ _ (by rfl), pySlice_negidx]
+    simp only [stepDen, Step.isSlice, if_true]
+  | slice a b c =>
+    by_cases hs : (Step.slice a b c).wf = true
+    · simp only [stepDen, stride_ne_zero a b c hs, Bool.false_eq_true, if_false, Step.isSlice, if_true]
+      match a, b, c, hs with
+      | none, none, none, _ => rw [compileStep, denOrd_slice _ _ _ _ _ (by rfl)]; rfl
+      | none, none, some none, _ => rw [compileStep, denOrd_slice _ _ _ _ _ (by rfl)]; rfl
+      | none, none, some (some v), h =>
+        have hv : (some v == some (0 : Int)) = false := by simpa [Step.wf] using h
+        simp only [compileStep, Option.getD_some]
+        rw [denOrd_slice _ _ _ _ _ hv]; rfl
+      | some x, none, none, _ => simp only [compileStep, Option.getD_some]; rw [denOrd_slice _ _ _ _ _ (by rfl)]; rfl
+      | none, some y, none, _ =>
+        simp only [compileStep, Option.getD_none]
+        rw [denOrd_slice _ _ _ _ _ (by rfl), pySlice_start_zero]; rfl
+      | some x, some y, none, _ => simp only [compileStep, Option.getD_some]; rw [denOrd_slice _ _ _ _ _ (by rfl)]; rfl
+      | some x, none, some none, _ =>
+        simp only [compileStep, Option.getD_none]
+        rw [denOrd_slice _ _ _ _ _ (by decide), pySlice_stride_one]; rfl
+      | none, some y, some none, _ =>
+        simp only [compileStep, Option.getD_none]
+        rw [denOrd_slice _ _ _ _ _ (by decide), pySlice_stride_one]; rfl
+      | some x, some y, some none, _ =>
+        simp only [compileStep, Option.getD_none]
+        rw [denOrd_slice _ _ _ _ _ (by decide), pySlice_stride_one]; rfl
+      | some x, none, some (some v), h =>
+        have hv : (some v == some (0 : Int)) = false := by simpa [Step.wf] using h
+        simp only [compileStep, Option.getD_some]
+        rw [denOrd_slice _ _ _ _ _ hv]; rfl
+      | none, some y, some (some v), h =>
+        have hv : (some v == some (0 : Int)) = false := by simpa [Step.wf] using h
+        simp only [compileStep, Option.getD_some]
+        rw [denOrd_slice _ _ _ _ _ hv]; rfl
+      | some x, some y, some (some v), h =>
+        have hv : (some v == some (0 : Int)) = false := by simpa [Step.wf] using h
+        simp only [compileStep, Option.getD_some]
+        rw [denOrd_slice _ _ _ _ _ hv]; rfl
+    · -- only `[a:b:0]` is not wf: `ValueError` at the current depth on both sides
+      match c, hs with
+      | none, hs => exact absurd rfl hs
+      | some none, hs => exact absurd rfl hs
+      | some (some v), hs =>
+        have hv : v = 0 := by simpa [Step.wf] using hs
+        subst hv
+        have hc : compileStep (.slice a b (some (some 0))) = .slice a b (some 0) := by
+          cases a <;> cases b <;> rfl
+        simp [hc, denOrd, stepDen, Step.stride]
+
+/-- **compiled steps under `denOrd` = the ranked depth-first reading of the steps**, every step list,
+    every depth: no `UniSteps` -/
+theorem denoteStepsR_compile (root : Node) (strict : Bool) : ∀ (steps : List Step) (d : Nat) (el : Pos),
+    denOrd root strict (steps.map compileStep) d el = denoteStepsR root strict steps d el
+  | [], d, el => by simp [denOrd, denoteStepsR]
+  | s :: r, d, el => by
+    rw [List.map_cons, denOrd_step, stepThen, denoteStepsR]
+    have : ∀ d', denOrd root strict (r.map compileStep) d' = denoteStepsR root strict r d' :=
+      fun d' => funext (denoteStepsR_compile root strict r d')
+    cases stepDen root strict s el with
+    | error e => rfl
+    | ok next => simp only [this]
+
+/-- **compiled AST = ranked denotation** (`denOps_compile` without `UniSteps`) -/
+theorem denoteR_compile (root : Node) (strict : Bool) (p : Spec.Path) (el : Pos) :
+    denOrd root strict (compile p) 0 el = denoteR p root el strict := by
+  unfold compile denoteR
+  rw [← denoteStepsR_compile]
+  cases p.top with
+  | true => simp [denOrd]
+  | false => simp
+
+/-- where only one kind of error can arise the ranked reading forgets to spec B's `denote` -/
+theorem denoteR_forget_of_uni (root : Node) (strict : Bool) (p : Spec.Path)
+    (hwf : UniSteps strict p.steps) (el : Pos) :
+    (denoteR p root el strict).forget = denote p root el strict := by
+  rw [← denoteR_compile, denOrd_forget_of_uni _ _ _ _ (uni_compile strict p hwf), denOps_compile _ _ _ hwf]
+
+/-- `denOps_compile` again, as a corollary -/
+theorem denOps_compile_cor (root : Node) (strict : Bool) (p : Spec.Path) (hwf : UniSteps strict p.steps)
+    (el : Pos) : denOps root strict (compile p) el = denote p root el strict := by
+  rw [← denOrd_forget_of_uni _ _ _ _ (uni_compile strict p hwf), denoteR_compile,
+    denoteR_forget_of_uni _ _ _ hwf]
 
 end Flatland.C14.Proofs
